@@ -808,6 +808,13 @@ sock_close(nni_sock *s, bool device)
 	}
 	nni_mtx_unlock(&sock_lk);
 
+	// An operation that found the socket before its id was removed may
+	// have queued itself in the protocol after the protocol's close hook
+	// ran (during shutdown).  All such callers have left by now and
+	// nobody else can reach the socket, so flush once more; otherwise
+	// those operations would stay pending forever.
+	s->s_sock_ops.sock_close(s->s_data);
+
 	// Because we already shut everything down before, we should not
 	// have any child objects.
 	nni_mtx_lock(&s->s_mx);
